@@ -138,6 +138,8 @@ type storeCtx struct {
 	srv    *apiServer // long-lived (its caches survive across operations)
 	marker int
 	killed func() bool
+	statFaultOn  bool    // fault "stat_error": the look-up of an existing target of a create or rename fails (EIO)
+	statFaultAt  *string // the path whose next stat by the server fails
 	unlinkFaults *int // injected failures of the server's unlink of history records so far (nil: none are injected)
 }
 
@@ -174,7 +176,13 @@ func (h *storeCtx) applyOp(i int, op storeOp) bool {
 		return true
 	case "create":
 		var r apiResp
+		if aExists && h.statFaultOn {
+			*h.statFaultAt = dagFile(a)
+		}
 		h.server(op.Via, func(s *apiServer) { r = s.create(a) })
+		if h.statFaultAt != nil {
+			*h.statFaultAt = ""
+		}
 		if h.killed() {
 			return true
 		}
@@ -235,7 +243,13 @@ func (h *storeCtx) applyOp(i int, op storeOp) bool {
 			return false // renaming a DAG onto itself is not specified
 		}
 		var r apiResp
+		if aExists && bExists && h.statFaultOn {
+			*h.statFaultAt = dagFile(b)
+		}
 		h.server(op.Via, func(s *apiServer) { r = s.action(a, act("rename"), b, "", "", "") })
+		if h.statFaultAt != nil {
+			*h.statFaultAt = ""
+		}
 		if h.killed() {
 			return true
 		}
@@ -512,8 +526,21 @@ func storesim(t *testing.T, tp *simrt.Tape, opts RunOpts) *Outcome {
 	// fault "unlink_error": in a quarter of the sequences half of the server's removals of history records
 	// fail (I/O error, immutable file): a delete that could not remove everything must say so and keep the
 	// definition, not report success over what it left behind
+	// fault "stat_error": in a quarter of the sequences the look-up of the (existing) target of a create or
+	// rename fails with an I/O error: a name that cannot be looked up is not a free name
+	statFaultOn := chance(tp, 1, 4)
+	statFaultAt := new(string)
+	if statFaultOn {
+		cfg.FaultPlan = func(op *simrt.OpInfo) simrt.Fault {
+			if *statFaultAt == "" || op.Kind != "stat" || op.Path != *statFaultAt || op.Proc.Name != "server" {
+				return simrt.Fault{}
+			}
+			op.Proc.W.CountFault("stat_error")
+			return simrt.Fault{Kind: simrt.FErr, Errno: syscall.EIO}
+		}
+	}
 	var unlinkFaults *int
-	if chance(tp, 1, 3) {
+	if !statFaultOn && chance(tp, 1, 3) {
 		unlinkFaults = new(int)
 		// motif: a DAG with several recorded runs is deleted (and its name taken again)
 		x := tp.Draw(simrt.SGen, nn)
@@ -535,7 +562,7 @@ func storesim(t *testing.T, tp *simrt.Tape, opts RunOpts) *Outcome {
 	res := simrt.Run(t, cfg, func(w *simrt.World) {
 		seedIDs(tp)
 		setupDirs(w)
-		h := &storeCtx{w: w, sc: sc, m: &storeModel{text: map[string]string{}, hist: map[string][]*sRun{}}, out: out, killed: func() bool { return false }, unlinkFaults: unlinkFaults}
+		h := &storeCtx{w: w, sc: sc, m: &storeModel{text: map[string]string{}, hist: map[string][]*sRun{}}, out: out, killed: func() bool { return false }, unlinkFaults: unlinkFaults, statFaultOn: statFaultOn, statFaultAt: statFaultAt}
 		inProc(w, "server", func() {
 			h.srv = newAPIServer()
 			for i, op := range sc.Ops {
